@@ -224,8 +224,10 @@ def drain(ctx):
                     objp = path(f, f.s(inside[0]["obj"]))
                     argp = path(f, f.s(inside[0]["args"][0])) if inside[0]["args"] else None
                     ok = objp is not None and objp.startswith("l:" + str(lv)) and argp == "this.m_obj"
+        if not ok and local is not None and len(runs) == 1:
+            ok = _iterator_traversal(f, local, runs[0])
         ctx.ob(rid, ok, f.where, "the local queue is traversed front to back with exactly one run_task(m_obj) per element",
-               "" if ok else "no range-for over the local with a single run_task on the loop variable", fn=f.label, inst=f.qname)
+               "" if ok else "no forward loop over the local with a single run_task on the current element", fn=f.label, inst=f.qname)
         # tasks run after the list lock is released (no user code under the internal section) and after the swap
         for r_ in runs:
             rp = f.pos_of(r_)
@@ -240,6 +242,58 @@ def drain(ctx):
         calls = _calls(f, lambda s: (s.get("callee") or {}).get("name") == "do_pending_writes_internal")
         ok = len(calls) == 1 and la.holds(f.pos_of(calls[0]), "this.m_mutex", "X")
         ctx.ob(rid, ok, f.where, "the drain is called exactly on the branch that owns the lock", "", fn=f.label, inst=f.qname)
+
+
+def _iterator_traversal(f, local, run):
+    """`auto it = local.begin(); while (it != local.end()) { (*it)->run_task(m_obj); ++it; }` (any loop form)"""
+    objp = path(f, f.s(run["obj"])) or ""
+    m = re.match(r"^\*?(l:\w+)", objp)
+    if not m:
+        return False
+    it = m.group(1)
+    init_ok = False
+    endvars = set()
+    for st in f.stmts.values():
+        if st["k"] == "DeclStmt":
+            for d in st["decls"]:
+                init = unwrap(f, f.s(d.get("init"))) if d.get("init") else None
+                while init is not None and init["k"] in CTORS and len(init["args"]) == 1:
+                    init = unwrap(f, f.s(init["args"][0]))
+                if init is not None and init["k"] == "CXXMemberCallExpr" and path(f, f.s(init["obj"])) == local:
+                    if "l:" + d["name"] == it and init["callee"]["name"] in ("begin", "cbegin"):
+                        init_ok = True
+                    if init["callee"]["name"] in ("end", "cend"):
+                        endvars.add("l:" + d["name"])
+    if not init_ok:
+        return False
+    # the run is inside a loop whose condition compares the iterator with end
+    pos = f.pos_of(run)
+    in_loop = False
+    for h, body in f.loops():
+        if pos[0] not in body:
+            continue
+        for b in body:
+            blk = f.blocks[b]
+            if blk.term and blk.term.get("cond") and any(s is not None and s not in body for s in blk.succs):
+                c = unwrap(f, f.s(blk.term["cond"]))
+                if c is not None and c["k"] == "CXXOperatorCallExpr" and c.get("op") == "!=":
+                    a0 = path(f, f.s(c["args"][0]))
+                    a1u = unwrap(f, f.s(c["args"][1]))
+                    a1 = path(f, a1u)
+                    is_end = a1 in endvars or (a1u is not None and a1u["k"] == "CXXMemberCallExpr" and
+                                               a1u["callee"]["name"] in ("end", "cend") and path(f, f.s(a1u["obj"])) == local)
+                    if a0 == it and is_end:
+                        in_loop = True
+    if not in_loop:
+        return False
+    # the iterator only moves forward by one
+    for st in f.stmts.values():
+        if st["k"] == "CXXOperatorCallExpr" and st["args"] and path(f, f.s(st["args"][0])) == it:
+            if st.get("op") in ("--", "+=", "-=", "="):
+                return False
+    incs = [st for st in f.stmts.values() if st["k"] == "CXXOperatorCallExpr" and st.get("op") == "++" and
+            path(f, f.s(st["args"][0])) == it]
+    return len(incs) == 1
 
 
 def shared(ctx):
